@@ -1260,7 +1260,9 @@ class Exec:
             elif arity == 1:
                 res = self.havoc_scalar("ret", scalar_type("long")) if facts.get("type") == "int" else Val("obj", None, OBJ)
             else:
-                res = Val("tuple", [self.havoc_scalar(f"ret{q}", scalar_type("long")) if t == "int" else Val("obj", None, OBJ)
+                res = Val("tuple", [self.havoc_scalar(f"ret{q}", scalar_type("long")) if t == "int" else
+                                    (self.make_input(f"ret{q}_{fn.replace('.', '_')}_{next(self.n)}", "float") if t == "float"
+                                     else Val("obj", None, OBJ))
                                     for q, t in enumerate(facts["types"])])
             saved_b = dict(self.bound_vars)
             self.bound_vars["result"] = res
